@@ -312,6 +312,13 @@ def run_c01(tier, seed, scale, verif):
         elif x < 0.35:
             c["settings"] = {"markdown": {"IgnoreLinkTitle": True}, "diagnosticSeverity": "error", "codeActions": {"ForceStable": True}}
 
+    # one flagged word of every length from 150 to 300 characters, in ASCII and with accents: whatever the server does
+    # with the word on the way to the client (message texts, ranges), it does it at every length
+    for L in range(150, 301):
+        cases.append({"lang": "plaintext", "text": "We saw a " + ("zq" * L)[:L] + " here.", "settings": {}})
+        if L % 3 == 0:
+            cases.append({"lang": "markdown", "text": ("z\u00e9q\u00fc" * L)[:L] + " is long.", "settings": {}})
+
     def judge(c, status, diags):
         if status == "ok":
             shapes.add((c["lang"], min(len(c["text"]) // 50, 20), len(diags) > 0))
